@@ -47,13 +47,11 @@ func main() {
 		os.Exit(2)
 	}
 	p.registerTags()
-	cfile := filepath.Join(*repo, "pkg/ggql/verif_contracts.go")
-	if _, err := os.Stat(cfile); err != nil || *devContracts {
-		cfile = filepath.Join(*verifDir, "contracts/verif_contracts.go")
-	}
-	if err := p.parseContracts(cfile, nil); err != nil {
-		fmt.Fprintln(os.Stderr, "govc: contract error:", err)
-		os.Exit(2)
+	for _, cfile := range p.contractFiles {
+		if err := p.parseContracts(cfile, nil); err != nil {
+			fmt.Fprintln(os.Stderr, "govc: contract error:", err)
+			os.Exit(2)
+		}
 	}
 	p.computeMods()
 	if *dumpFn != "" {
